@@ -62,7 +62,7 @@ LEVELS = {
         "note": "Readers of the same crate versions are trusted; fault set limited to what root cannot write.",
     },
     "C02": {
-        "technique": "runtime monitoring: shadow execution of every HMC row against an f64 leapfrog/Metropolis reference fed with the draws recorded at the hook; metamorphic row-independence and reversibility checks",
+        "technique": "runtime monitoring: shadow execution of every HMC row against an f64 leapfrog/Metropolis reference fed with the draws recorded at the hook; seed scan for rare acceptance draws (u = 0, 2^-24); metamorphic row-independence and reversibility checks",
         "text": "Each observed HMC row update is replayed by an independent integrator with closed-form gradients using exactly the momentum and uniform the step consumed; the decision and the endpoint are compared with sensitivity-derived tolerances. Exploration over targets, step sizes, L, batch shapes and precisions.",
         "note": "Takes the hooked draws as given (their distribution is C06's business); closed-form gradients guarded by a tensor-vs-closed-form self-check (mv SELF).",
     },
@@ -72,7 +72,7 @@ LEVELS = {
         "note": "Closed-form gradients (self-checked against the tensor code); post-order consumption of merge uniforms assumed as in Algorithm 6.",
     },
     "C04": {
-        "technique": "runtime monitoring: online reference model of the dual-averaging recursion fed with the recorded per-transition statistics; bitwise freeze invariant; calibrated statistical band",
+        "technique": "runtime monitoring: online reference model of the dual-averaging recursion fed with the recorded per-transition statistics; bitwise freeze invariant; positivity/finiteness invariant on NaN-region targets; calibrated statistical band",
         "text": "The step size used by every observed transition is compared with an f64 dual-averaging reference driven by the same statistics, across multi-call histories; the freeze after warm-up is checked bitwise. Exploration over targets, deltas, warm-up lengths and call sequences.",
         "note": "First momentum replicated from the seed (rand's StandardNormal on SmallRng::seed_from_u64); eps0 judged by a post-condition, not by re-running the heuristic.",
     },
@@ -82,7 +82,7 @@ LEVELS = {
         "note": "Acceptance draws equal to 0 excluded per the statement; near-boundary states inconclusive.",
     },
     "C10": {
-        "technique": "runtime monitoring: offline checker over the sequence-numbered protocol event log + online bounded-progress guard (logical clock), twin comparison of draws, receiver-drop fault injection",
+        "technique": "runtime monitoring: offline checker over the sequence-numbered protocol event log + online bounded-progress guards (logical clock), injected delays at protocol events, calls from inside constrained thread pools, twin comparison of draws, receiver-drop fault injection",
         "text": "Each run_progress call is observed through protocol events and checked for exactly-once final messages, worker completion and bounded reporter progress under generated chain counts and speed profiles; draws and diagnostics are compared with run() twins across precisions; receiver faults are injected at three points.",
         "note": "Schedules are produced, not enumerated; the guard bound 2n+8 is far above the <= ceil(n/5)+2 iterations the unchanged code needs.",
     },
